@@ -80,13 +80,20 @@ func BigFloatToPBigDecimalFloat(value *big.Float) (*apd.Decimal, error) {
 	return d, err
 }
 
+// How a big.Float is shown in an error message: in hexadecimal, which costs no
+// more than the value's mantissa. (The decimal form of 0x1p2000000000 has 600
+// million digits; a message about a 16-byte document must not take hours to build.)
+func BigFloatToErrorText(value *big.Float) string {
+	return value.Text('x', -1)
+}
+
 func BigFloatToBigInt(value *big.Float, maxBase2Exponent int) (*big.Int, error) {
 	if value.MantExp(nil) > maxBase2Exponent {
-		return nil, fmt.Errorf("%v has a binary exponential component (%v) that is too large for a big int (max %v)", value, value.MantExp(nil), maxBase2Exponent)
+		return nil, fmt.Errorf("%v has a binary exponential component (%v) that is too large for a big int (max %v)", BigFloatToErrorText(value), value.MantExp(nil), maxBase2Exponent)
 	}
 	bi, accuracy := value.Int(new(big.Int))
 	if accuracy != big.Exact {
-		return nil, fmt.Errorf("%v cannot fit into a big.Int", value)
+		return nil, fmt.Errorf("%v cannot fit into a big.Int", BigFloatToErrorText(value))
 	}
 	return bi, nil
 }
@@ -94,17 +101,17 @@ func BigFloatToBigInt(value *big.Float, maxBase2Exponent int) (*big.Int, error) 
 func BigFloatToFloat(value *big.Float) (float64, error) {
 	exp := value.MantExp(nil)
 	if exp < -1029 {
-		return 0, fmt.Errorf("%v is too small to fit into a float64", value)
+		return 0, fmt.Errorf("%v is too small to fit into a float64", BigFloatToErrorText(value))
 	}
 	if exp > 1024 {
-		return 0, fmt.Errorf("%v is too big to fit into a float64", value)
+		return 0, fmt.Errorf("%v is too big to fit into a float64", BigFloatToErrorText(value))
 	}
 	f, accuracy := value.Float64()
 	if accuracy != big.Exact {
 		if f == 0 {
-			return 0, fmt.Errorf("%v is too small to fit into a float64", value)
+			return 0, fmt.Errorf("%v is too small to fit into a float64", BigFloatToErrorText(value))
 		} else if math.IsInf(f, 0) {
-			return 0, fmt.Errorf("%v is too big to fit into a float64", value)
+			return 0, fmt.Errorf("%v is too big to fit into a float64", BigFloatToErrorText(value))
 		}
 	}
 
@@ -114,10 +121,10 @@ func BigFloatToFloat(value *big.Float) (float64, error) {
 func BigFloatToInt(value *big.Float) (int64, error) {
 	i, accuracy := value.Int64()
 	if accuracy != big.Exact {
-		return 0, fmt.Errorf("cannot convert %v to int", value)
+		return 0, fmt.Errorf("cannot convert %v to int", BigFloatToErrorText(value))
 	}
 	if big.NewFloat(float64(i)).Cmp(value) != 0 {
-		return 0, fmt.Errorf("cannot convert %v to int", value)
+		return 0, fmt.Errorf("cannot convert %v to int", BigFloatToErrorText(value))
 	}
 	return i, nil
 }
@@ -125,10 +132,10 @@ func BigFloatToInt(value *big.Float) (int64, error) {
 func BigFloatToUint(value *big.Float) (uint64, error) {
 	u, accuracy := value.Uint64()
 	if accuracy != big.Exact {
-		return 0, fmt.Errorf("cannot convert %v to uint", value)
+		return 0, fmt.Errorf("cannot convert %v to uint", BigFloatToErrorText(value))
 	}
 	if big.NewFloat(float64(u)).Cmp(value) != 0 {
-		return 0, fmt.Errorf("cannot convert %v to uint", value)
+		return 0, fmt.Errorf("cannot convert %v to uint", BigFloatToErrorText(value))
 	}
 	return u, nil
 }
